@@ -178,9 +178,12 @@ def run_harness(ctx, binp, args, timeout=600, stdin=None, env=None):
 # ------------------------------------------------------------------------------------------------ S2 translator
 def regen(ctx, only=()):
     t = time.time()
-    r = subprocess.run([sys.executable, os.path.join(VERIF, "tools", "rs2coq.py"), REPO, os.path.join(COQ, "Gen")] + list(only),
+    # all generators run every time (cheap); `only` selects whose failures concern the calling property
+    r = subprocess.run([sys.executable, os.path.join(VERIF, "tools", "rs2coq.py"), REPO, os.path.join(COQ, "Gen")],
                        capture_output=True, text=True)
     msgs = [l for l in r.stdout.splitlines() if l.startswith("UNTRANSLATABLE")]
+    if only:
+        msgs = [l for l in msgs if any(l.rstrip().endswith(f"[generator {g}]") for g in only)]
     if r.returncode not in (0, 3):
         raise CheckError("translator crashed:\n" + r.stdout[-2000:] + r.stderr[-4000:])
     subprocess.run([sys.executable, os.path.join(VERIF, "tools", "mkproject.py")], check=True)
